@@ -27,7 +27,7 @@ func (b *Base85Encoder) Code() byte {
 func (b *Base85Encoder) Encode(data []byte) []byte {
 	l := ascii85.MaxEncodedLen(len(data))
 	dst := make([]byte, l)
-	ascii85.Encode(dst, data)
+	dst = dst[:ascii85.Encode(dst, data)]
 	for k, b := range dst {
 		if b == '.' {
 			dst[k] = 'v'
@@ -53,7 +53,8 @@ func (b *Base85Encoder) Decode(data []byte) ([]byte, error) {
 		}
 	}
 
-	dst := make([]byte, len(source))
+	// a 'z' stands for four zero bytes, so the output can be up to four times the input
+	dst := make([]byte, 4*len(source))
 	ndst, _, err := ascii85.Decode(dst, source, true)
 	if err != nil {
 		err = errors.WithStack(err)
